@@ -39,19 +39,37 @@ var spaceFrags = []string{
 	"# c\n", "#", "\\\n", "\n\n", "\n    \n", "\n  # c\n", " \n", " ", " ", "\v", "\f", "\ufeff",
 }
 
+// uni draws an approximately uniform integer in [0, n). rapid's integer generators are heavily biased
+// towards small values for ranges wider than a few bits (a geometric bit length), which would starve the
+// tail of every alphabet; ranges of <= 3 bits are nearly uniform, so wider draws are composed from octal digits.
+func uni(t *rapid.T, n int, label string) int {
+	if n <= 1 {
+		return 0
+	}
+	if n <= 8 {
+		return rapid.IntRange(0, n-1).Draw(t, label)
+	}
+	v, span := 0, 1
+	for span < n*4 { // *4 keeps the modulo bias small
+		v = v*8 + rapid.IntRange(0, 7).Draw(t, label)
+		span *= 8
+	}
+	return v % n
+}
+
 func pick(t *rapid.T, xs []string, label string) string {
-	return xs[rapid.IntRange(0, len(xs)-1).Draw(t, label)]
+	return xs[uni(t, len(xs), label)]
 }
 
 func genString(t *rapid.T) string {
 	p := pick(t, strPrefixes, "sp")
 	q := pick(t, strQuotes, "sq")
 	b := pick(t, strBodies, "sb")
-	if rapid.IntRange(0, 4).Draw(t, "sb2") == 0 {
+	if uni(t, 5, "sb2") == 0 {
 		b += pick(t, strBodies, "sb3")
 	}
 	end := q
-	switch rapid.IntRange(0, 29).Draw(t, "send") {
+	switch uni(t, 30, "send") {
 	case 0:
 		end = "" // unterminated
 	case 1:
@@ -61,7 +79,7 @@ func genString(t *rapid.T) string {
 }
 
 func genFrag(t *rapid.T) string {
-	switch rapid.IntRange(0, 9).Draw(t, "kind") {
+	switch uni(t, 10, "kind") {
 	case 0, 1:
 		return pick(t, identFrags, "id")
 	case 2:
@@ -81,7 +99,7 @@ func genSoup(t *rapid.T) []byte {
 	var sb strings.Builder
 	for i := 0; i < n; i++ {
 		sb.WriteString(genFrag(t))
-		if rapid.IntRange(0, 2).Draw(t, "sep") == 0 {
+		if uni(t, 3, "sep") == 0 {
 			sb.WriteByte(' ')
 		}
 	}
@@ -93,7 +111,7 @@ func genLiterals(t *rapid.T) []byte {
 	ctx := []string{"x = %s\n", "%s\n", "f(%s)\n", "f(a = %s)\n", "x = [%s]\n", "x = {%s: 1}\n", "x = {1: %s}\n", "x = (%s)[0]\n",
 		"x = %s if %s else %s\n", "x = %s + %s\n", "x = %s.format(y)\n", "x = [y for y in %s if %s]\n", "def f(a=%s):\n    return %s\n",
 		"assert %s, %s\n", "x = %s %% %s\n", "x = y[%s:%s]\n", "x = lambda: %s\n", "x = (\n  %s\n)\n"}
-	c := ctx[rapid.IntRange(0, len(ctx)-1).Draw(t, "ctx")]
+	c := ctx[uni(t, len(ctx), "ctx")]
 	parts := strings.Split(c, "%s")
 	var sb strings.Builder
 	for i, p := range parts {
@@ -104,7 +122,7 @@ func genLiterals(t *rapid.T) []byte {
 		k := rapid.IntRange(1, 4).Draw(t, "chain")
 		for j := 0; j < k; j++ {
 			sb.WriteString(genString(t))
-			switch rapid.IntRange(0, 5).Draw(t, "glue") {
+			switch uni(t, 6, "glue") {
 			case 0:
 				sb.WriteByte(' ')
 			case 1:
@@ -126,7 +144,7 @@ type progGen struct {
 func (g *progGen) emit(s ...string) { g.toks = append(g.toks, s...) }
 func (g *progGen) nl(depth int)     { g.toks = append(g.toks, "\n"+strings.Repeat("    ", depth)) }
 func (g *progGen) n(max int, l string) int {
-	return rapid.IntRange(0, max).Draw(g.t, l)
+	return uni(g.t, max+1, l)
 }
 
 var plainIdents = []string{"x", "y", "foo", "_p", "name", "srcs", "deps", "f", "r", "CONFIG"}
@@ -397,10 +415,10 @@ func joinTokens(toks []string, tight []bool) []byte {
 func genMutated(t *rapid.T, base []string) ([]byte, int) {
 	toks := append([]string{}, base...)
 	tight := make([]bool, len(toks)+8)
-	nm := rapid.IntRange(0, 4).Draw(t, "muts")
+	nm := uni(t, 5, "muts")
 	for m := 0; m < nm && len(toks) > 0; m++ {
-		i := rapid.IntRange(0, len(toks)-1).Draw(t, "mi")
-		switch rapid.IntRange(0, 9).Draw(t, "mk") {
+		i := uni(t, len(toks), "mi")
+		switch uni(t, 10, "mk") {
 		case 0: // delete
 			toks = append(toks[:i], toks[i+1:]...)
 		case 1: // duplicate
@@ -416,7 +434,7 @@ func genMutated(t *rapid.T, base []string) ([]byte, int) {
 		case 5: // break indentation of the next line start
 			for j := i; j < len(toks); j++ {
 				if strings.HasPrefix(toks[j], "\n") {
-					toks[j] = "\n" + strings.Repeat(" ", rapid.IntRange(0, 9).Draw(t, "ind"))
+					toks[j] = "\n" + strings.Repeat(" ", uni(t, 10, "ind"))
 					break
 				}
 			}
@@ -452,7 +470,7 @@ var stressShapes = []stressShape{
 }
 
 func genStress(t *rapid.T, maxDepth int) []byte {
-	sh := stressShapes[rapid.IntRange(0, len(stressShapes)-1).Draw(t, "shape")]
+	sh := stressShapes[uni(t, len(stressShapes), "shape")]
 	unit := len(sh.open) + len(sh.close)
 	if unit == 0 {
 		unit = 1
@@ -463,7 +481,7 @@ func genStress(t *rapid.T, maxDepth int) []byte {
 	}
 	// bias towards the extremes
 	var n int
-	switch rapid.IntRange(0, 2).Draw(t, "depthkind") {
+	switch uni(t, 3, "depthkind") {
 	case 0:
 		n = rapid.IntRange(1, 64).Draw(t, "depth")
 	case 1:
@@ -471,10 +489,10 @@ func genStress(t *rapid.T, maxDepth int) []byte {
 	default:
 		n = lim
 	}
-	pre := []string{"x = ", "", "f(", "def f(a=", "assert "}[rapid.IntRange(0, 4).Draw(t, "pre")]
+	pre := []string{"x = ", "", "f(", "def f(a=", "assert "}[uni(t, 5, "pre")]
 	post := map[string]string{"x = ": "\n", "": "\n", "f(": ")\n", "def f(a=": "):\n    pass\n", "assert ": "\n"}[pre]
 	s := pre + strings.Repeat(sh.open, n) + sh.mid + strings.Repeat(sh.close, n) + post
-	if rapid.IntRange(0, 3).Draw(t, "nest") == 0 {
+	if uni(t, 4, "nest") == 0 {
 		// inside an indented block, to combine with indentation handling
 		s = "def g():\n    " + strings.ReplaceAll(strings.TrimSuffix(s, "\n"), "\n", "\n    ") + "\n"
 	}
@@ -484,7 +502,7 @@ func genStress(t *rapid.T, maxDepth int) []byte {
 // genLongLine: very long single tokens / lines.
 func genLongLine(t *rapid.T, maxLen int) []byte {
 	n := rapid.IntRange(1000, maxLen).Draw(t, "len")
-	switch rapid.IntRange(0, 7).Draw(t, "llk") {
+	switch uni(t, 8, "llk") {
 	case 0:
 		return []byte("x = \"" + strings.Repeat("a", n) + "\"\n")
 	case 1:
